@@ -1,4 +1,4 @@
-import Crng.DQCrashMain
+import Crng.DQHist
 /-! # C08 — the disk spool queue recovers consistently from a crash at any point -/
 namespace Crng.Props.C08
 open Crng.DQ
@@ -16,5 +16,44 @@ theorem crash_recovery (cfg : Cfg) (es : List Ev) (hsm : ∀ e ∈ es, smallEv e
       ∃ k fuel, k ≤ e.g.dsince ∧
         drain cfg fuel (openQ cfg e.disk []) = ((e.g.synced.drop k).map (·.msg), true) :=
   c08_crash_recovery cfg es hsm
+
+/-- **C08 in terms of the history.** Let `P` be the messages of the `put` events of the history, in order. At every crash
+point there are numbers `n` (messages written by then), `d ≤ n` (messages handed to the consumer by then), `b ≤ n`
+(messages written when the last metadata rename completed) and `a ≤ d` (messages handed over when it completed) — fixed by the
+model's ghost fields: `pend = P[d:n]`, `synced = P[a:b]` — such that reopening the directory terminates and delivers exactly
+
+  `P[j:b]`  for some `a ≤ j ≤ d`:
+
+one contiguous run of the enqueued messages, byte-for-byte and in order; it starts no later than the first message not yet
+handed to the consumer (`j ≤ d`: nothing undelivered is skipped), it extends to the last message written before the last
+completed sync (`b`), so only the un-synced tail `P[b:n]` is lost, and only messages consumed since that sync (`P[a:d]`) can be
+delivered again (`a ≤ j`). -/
+theorem crash_recovery_history (cfg : Cfg) (es : List Ev) (hsm : ∀ e ∈ es, smallEv e) :
+    ∀ e ∈ (runEvs cfg (openQ cfg {} []) es).log,
+      ∃ n d b a j fuel, n ≤ (putsOf es).length ∧ d ≤ n ∧ b ≤ n ∧ a ≤ j ∧ j ≤ d ∧
+        e.g.pend.map (·.msg) = ((putsOf es).take n).drop d ∧
+        e.g.synced.map (·.msg) = ((putsOf es).take b).drop a ∧
+        drain cfg fuel (openQ cfg e.disk []) = (((putsOf es).take b).drop j, true) := by
+  intro e he
+  obtain ⟨E, hE, hmsg⟩ := hinv_run es _ [] (fresh_bd cfg) hsm (hinv_fresh cfg)
+  simp only [List.map_nil, List.nil_append] at hmsg
+  obtain ⟨E', hpre, d, a, b, had, hd, hab, hb, hp, hs, hds⟩ := hE.2 e he
+  obtain ⟨k, fuel, hk, hdr⟩ := crash_recovery cfg es hsm e he
+  have hpm : E'.map (·.msg) <+: putsOf es := by rw [← hmsg]; exact List.IsPrefix.map _ hpre
+  have hlen : E'.length ≤ (putsOf es).length := by have := hpm.length_le; simpa using this
+  have htake : ∀ m, m ≤ E'.length → (E'.map (·.msg)).take m = (putsOf es).take m := by
+    intro m hm
+    obtain ⟨t, ht⟩ := hpm
+    rw [← ht, List.take_append_of_le_length (by simpa using hm)]
+  refine ⟨E'.length, d, b, a, a + k, fuel, hlen, hd, hb, Nat.le_add_right _ _, by omega, ?_, ?_, ?_⟩
+  · rw [hp, List.map_drop, ← htake _ (Nat.le_refl _), List.take_of_length_le (by simp)]
+  · rw [hs, List.map_drop, List.map_take, htake _ hb]
+  · rw [hdr, hs, List.drop_drop, List.map_drop, List.map_take, htake _ hb]
+
+/-- the premises are met by a real history: two messages, one consumed, a crash between the data write and the next sync -/
+example : ∃ e ∈ (runEvs { maxBytes := 100, syncEvery := 2 } (openQ { maxBytes := 100, syncEvery := 2 } {} []) [.put [1], .put [2], .get, .put [3]]).log,
+    e.label = "write.data" ∧ e.g.pend.map (·.msg) = [[2], [3]] := by
+  refine ⟨_, List.mem_cons_self .., ?_⟩
+  decide
 
 end Crng.Props.C08
